@@ -203,6 +203,7 @@ def run_shard(sh, rec):
         entries.append((c06.BIG_N[d], "bigN"))  # > 1024 markers: dense W on a small grid
     entries += [(c06.SIBLINGS[d][sh["variant"]], "sibling"), (POOL[d][sh["variant"]][0], "first-again")]
     first = None
+    npred = 0
     for (x_range, nx, N), role in entries:
         dom0 = c06.make_domain(d, (8,) * (d - 1) + (nx,), x_range, real_t)
         dx_t = dom0.dx
@@ -213,6 +214,19 @@ def run_shard(sh, rec):
                 continue
             comm = first
         else:
+            if role == "pool" and c06.is_dyadic(float(dx_t)) and npred < 2:
+                # predecessor of the OTHER precision with a numerically equal (dyadic) spacing, same marker count and kernel type,
+                # created and used in this process first: np.float32(v) == np.float64(v) and hash equal for dyadic v, so a
+                # generator cache keyed by (dx, width) without the precision hands the later object a kernel of the wrong precision
+                other_t = np.float32 if real_t is np.float64 else np.float64
+                try:
+                    pred = c06.Comm(d, other_t(float(dx_t)), N, other_t, kernel)
+                    Pp = rng.uniform(3.2, 4.8, size=(d, N)) * float(dx_t)
+                    pred.weights(rng, Pp)
+                    npred += 1
+                    rec.count("other_precision_predecessors_same_dyadic_dx")
+                except Exception as e:
+                    rec.note(f"other-precision predecessor failed: {type(e).__name__}: {e}")
             try:
                 comm = c06.Comm(d, dx_t, N, real_t, kernel, positional=(role == "sibling"))
             except Exception as e:
